@@ -185,7 +185,8 @@ namespace RecInt
     // a = b*b
     template <size_t K>
     inline void lsquare(rint<K+1>& a, const rint<K>& b) {
-        lsquare(a.Value, b.Value);
+        if (b.isNegative()) lsquare(a.Value, (-b).Value);
+        else lsquare(a.Value, b.Value);
     }
 }
 
